@@ -280,3 +280,19 @@ package authenticode
 //@   requires sig != nil && sig.Indirect != nil
 //@   ensures @page_hash_function_is_sha1_or_sha256 ret0 == nil && len(sig.PageHashes) > 0 && old(len(sig.PageHashes)) == 0 ==> sig.PageHashFunc == 3 || sig.PageHashFunc == 5
 //@   modifies sig.PageHashFunc, sig.PageHashes
+//@
+//@ macro msiN(a *comdoc.DirEnt, b *comdoc.DirEnt) int = min(min(a.NameLength, b.NameLength), 32)
+//@
+//@ func sortMsiFiles$1
+//@   property C05 C11
+//@   nopanic
+//@   requires 0 <= i && i < len(files) && 0 <= j && j < len(files) && files[i] != nil && files[j] != nil
+//@   ensures @equal_prefixes_are_ordered_by_length_longer_first \
+//@        forall(m, 0, msiN(files[i], files[j]), files[i].NameRunes[m] == files[j].NameRunes[m]) ==> ret0 == (files[i].NameLength > files[j].NameLength)
+//@   ensures @otherwise_the_first_differing_utf16le_byte_decides forall(k, 0, msiN(files[i], files[j]), \
+//@        forall(m, 0, k, files[i].NameRunes[m] == files[j].NameRunes[m]) && files[i].NameRunes[k] != files[j].NameRunes[k] ==> \
+//@        ret0 == (files[i].NameRunes[k] % 256 < files[j].NameRunes[k] % 256 || \
+//@                 (files[i].NameRunes[k] % 256 == files[j].NameRunes[k] % 256 && files[i].NameRunes[k] / 256 < files[j].NameRunes[k] / 256)))
+//@   loop 0 sig "for k := uint16(0); k < n; k++" invariant 0 <= k && k <= n && n == msiN(files[i], files[j]) && a == files[i] && b == files[j] && \
+//@        forall(m, 0, k, a.NameRunes[m] == b.NameRunes[m])
+//@   modifies nothing
